@@ -110,7 +110,7 @@ __CPROVER_ensures(g_del_calls == __CPROVER_old(g_del_calls) + 1 && g_del_last ==
 CI = 'src/cache_interface.cpp'
 PRE += r'''
 /* ---- cache_interface: trigger propagation.  recorders_ = {0..nrec-1}; triggers_ (the set attached to the page being built) and the recorders' sets are recorders of insertions */
-struct cif { bool has_cache; size_t nrec; };
+struct cif { bool has_cache; size_t nrec; bool has_context; bool page_compression_used_; };
 int g_ci_trig_inserts; size_t g_ci_trig_last; size_t g_ri; int g_ci_rec_adds_at_ri, g_ci_rec_adds; size_t g_ci_rec_last_t;
 static void rec_add(size_t rec, size_t t) { g_ci_rec_adds++; if(rec == g_ri) { g_ci_rec_adds_at_ri++; g_ci_rec_last_t = t; } }
 static void trigs_insert(size_t t) { g_ci_trig_inserts++; g_ci_trig_last = t; }
@@ -119,10 +119,25 @@ static void trigs_insert(size_t t) { g_ci_trig_inserts++; g_ci_trig_last = t; }
 static size_t trigs_find(size_t t) { int present; return present ? t : TRIGS_END; }
 /* cache_module_->fetch / store */
 bool g_cm_hit; struct idset g_cm_trigs; int g_cm_fetch_calls, g_cm_store_calls; bool g_cm_fetch_wants_trigs; size_t g_cm_store_key, g_cm_store_data; struct idset const *g_cm_store_trigs; time_t g_cm_store_deadline;
-static bool cm_fetch(size_t key, struct idset *out) { g_cm_fetch_calls++; g_cm_fetch_wants_trigs = out != 0; if(!g_cm_hit) return 0; if(out) *out = g_cm_trigs; return 1; }
-static void cm_store(size_t key, size_t data, struct idset const *trigs, time_t deadline) { g_cm_store_calls++; g_cm_store_key = key; g_cm_store_data = data; g_cm_store_trigs = trigs; g_cm_store_deadline = deadline; }
+size_t g_cm_fetch_key; int g_cm_store_at; int g_at_calls;
+static bool cm_fetch(size_t key, struct idset *out) { g_cm_fetch_calls++; g_cm_fetch_key = key; g_cm_fetch_wants_trigs = out != 0; if(!g_cm_hit) return 0; if(out) *out = g_cm_trigs; return 1; }
+static void cm_store(size_t key, size_t data, struct idset const *trigs, time_t deadline) { g_cm_store_calls++; g_cm_store_at = g_at_calls; g_cm_store_key = key; g_cm_store_data = data; g_cm_store_trigs = trigs; g_cm_store_deadline = deadline; }
 int g_at_calls; size_t g_at_last, g_at_k, g_at_at_k;     /* add_trigger recorder: how many calls, the last argument, the argument of call number g_at_k */
 #define INFTY_T ((time_t)(0x7FFFFFFFFFFFFFFFULL - 3600*24))
+/* ---- whole-page caching: the response object and the "_Z:" / "_U:" key variants are recorders */
+#define LBL_Z 1
+#define LBL_U 2
+#define ENC_gzip 1
+struct idset g_empty_set; struct idset g_page_trigs;    /* stands for cache_interface::triggers_, the set attached to the page being built */
+size_t g_rk_id, g_rk_key, g_cd_id, g_cm_data, g_w_data, g_w_len; int g_rk_calls, g_rk_label, g_fin_calls, g_cd_calls, g_cd_fin, g_w_calls, g_enc_calls, g_enc_last, g_copy_calls; bool g_need_gzip;
+static size_t rkey_rec(bool c, int a, int b, size_t key) { if(g_rk_calls < 2) g_rk_calls++; g_rk_label = c ? a : b; g_rk_key = key; return g_rk_id; }
+static void resp_finalize(void) { if(g_fin_calls < 2) g_fin_calls++; }
+static size_t resp_copied_data(void) { if(g_cd_calls < 2) g_cd_calls++; g_cd_fin = g_fin_calls; return g_cd_id; }
+static bool resp_need_gzip(void) { return g_need_gzip; }
+static bool cm_fetch_data(size_t key, size_t *data, struct idset *out) { bool r = cm_fetch(key, out); if(r) *data = g_cm_data; return r; }
+static void resp_content_encoding(int e) { if(g_enc_calls < 2) g_enc_calls++; g_enc_last = e; }
+static void resp_write(size_t d, size_t l) { if(g_w_calls < 2) g_w_calls++; g_w_data = d; g_w_len = l; }
+static void resp_copy_to_cache(void) { if(g_copy_calls < 2) g_copy_calls++; }
 '''
 functions = [
     dict(cname='mc_delete_node', file=M, locate=lit('void delete_node(pointer p)'), sig='void mc_delete_node(struct mc *self, hnd p)', self_arg='self', members=['size', 'triggers_count'],
@@ -304,7 +319,7 @@ __CPROVER_ensures(g_at_calls == __CPROVER_old(g_at_calls) + 1 && g_at_last == t 
     dict(cname='ci_fetch', file=CI, locate=lit('bool cache_interface::fetch(string const &key,string &result,bool notriggers)'), sig='bool ci_fetch(struct cif *self, size_t key, bool notriggers)', self_arg='self',
          rename={'add_trigger': 'ci_add_trigger'},
          rewrites=[(r'nocache\(\)', '(!self->has_cache)', 1), (r'set<string> new_trig;', 'struct idset new_trig = {0, 0, 0};', 1), (r'triggers_\.find\((\w+)\)', r'trigs_find(\1)', 0), (r'triggers_\.end\(\)', 'TRIGS_END', 0), (r'cache_module_->fetch\(key,result,', 'cm_fetch(key,', 1),
-                   (r'std::set<std::string>::const_iterator p;', 'size_t p;', 1), (r'new_trig\.begin\(\)', '0', 1), (r'new_trig\.end\(\)', 'new_trig.n', 1), (r'\*p\b', 'set_elem(&new_trig, p)', 1)],
+                   (r'std::set<std::string>::const_iterator p;', 'size_t p;', 1), (r'new_trig\.begin\(\)', '0', 1), (r'new_trig\.end\(\)', 'new_trig.n', 1), (r'\*p\b', 'set_elem(&new_trig, p)', 0)],
          loops={0: r'''
 __CPROVER_assigns(p, g_ci_rec_adds, g_ci_rec_adds_at_ri, g_ci_rec_last_t, g_ci_trig_inserts, g_ci_trig_last, g_at_calls, g_at_last, g_at_at_k)
 __CPROVER_loop_invariant(p <= new_trig.n && new_trig.n == g_cm_trigs.n && new_trig.id == g_cm_trigs.id && g_at_calls == (int)p && g_ci_trig_inserts == (int)p && g_ci_rec_adds >= 0 && g_ci_rec_adds <= 1000 * (int)p && g_ci_rec_adds_at_ri == (g_ri < self->nrec ? (int)p : 0) &&
@@ -313,16 +328,16 @@ __CPROVER_decreases(new_trig.n - p)'''},
          contract=r'''
 __CPROVER_requires(__CPROVER_r_ok(self, sizeof(*self)) && self->nrec <= 1000 && g_cm_trigs.n <= 1000 && __CPROVER_r_ok(g_cm_trigs.id, g_cm_trigs.n * sizeof(size_t)) && g_cm_fetch_calls == 0 &&
                    g_ci_rec_adds == 0 && g_ci_rec_adds_at_ri == 0 && g_ci_trig_inserts == 0 && g_at_calls == 0 && self->has_cache)
-__CPROVER_assigns(g_cm_fetch_calls, g_cm_fetch_wants_trigs, g_ci_rec_adds, g_ci_rec_adds_at_ri, g_ci_rec_last_t, g_ci_trig_inserts, g_ci_trig_last, g_at_calls, g_at_last, g_at_at_k)
+__CPROVER_assigns(g_cm_fetch_calls, g_cm_fetch_key, g_cm_fetch_wants_trigs, g_ci_rec_adds, g_ci_rec_adds_at_ri, g_ci_rec_last_t, g_ci_trig_inserts, g_ci_trig_last, g_at_calls, g_at_last, g_at_at_k)
 /* a hit on a cached frame INHERITS its triggers: every trigger the back end reports is added (to the page being built and to every recorder), in order, exactly once; a miss or notriggers adds nothing */
-__CPROVER_ensures(g_cm_fetch_calls == 1 && __CPROVER_return_value == g_cm_hit && g_cm_fetch_wants_trigs == !notriggers)
+__CPROVER_ensures(g_cm_fetch_calls == 1 && g_cm_fetch_key == key && __CPROVER_return_value == g_cm_hit && g_cm_fetch_wants_trigs == !notriggers)
 __CPROVER_ensures((g_cm_hit && !notriggers) ? (g_at_calls == (int)g_cm_trigs.n && (g_at_k < g_cm_trigs.n ==> g_at_at_k == g_cm_trigs.id[g_at_k])) : g_at_calls == 0)
 '''),
     dict(cname='ci_store', file=CI, locate=r'void cache_interface::store\(string const &key,string const &data,\s*set<string> const &triggers,\s*int timeout,\s*bool notriggers\)',
          sig='void ci_store(struct cif *self, size_t key, size_t data, struct idset const *triggers, int timeout, bool notriggers)', self_arg='self', throw_ret='', throwing_callees=['ci_deadtime'],
          rename={'add_trigger': 'ci_add_trigger', 'deadtime': 'ci_deadtime'},
          rewrites=[(r'nocache\(\)', '(!self->has_cache)', 1), (r'std::set<std::string>::const_iterator p;', 'size_t p;', 1), (r'triggers\.begin\(\)', '0', 1), (r'triggers\.end\(\)', 'triggers->n', 1),
-                   (r'\*p\b', 'set_elem(triggers, p)', 1), (r'cache_module_->store\(key,data,triggers,deadtime\(timeout\)\);', 'time_t dl = deadtime(timeout); cm_store(key, data, triggers, dl);', 0)],
+                   (r'\*p\b', 'set_elem(triggers, p)', 0), (r'cache_module_->store\(key,data,triggers,deadtime\(timeout\)\);', 'time_t dl = deadtime(timeout); cm_store(key, data, triggers, dl);', 0)],
          loops={0: r'''
 __CPROVER_assigns(p, g_ci_rec_adds, g_ci_rec_adds_at_ri, g_ci_rec_last_t, g_ci_trig_inserts, g_ci_trig_last, g_at_calls, g_at_last, g_at_at_k)
 __CPROVER_loop_invariant(p <= triggers->n && g_at_calls == (int)p && g_ci_trig_inserts == (int)p && g_ci_rec_adds >= 0 && g_ci_rec_adds <= 1000 * (int)p && g_ci_rec_adds_at_ri == (g_ri < self->nrec ? (int)p : 0) && (g_at_k < p ==> g_at_at_k == triggers->id[g_at_k]))
@@ -330,10 +345,43 @@ __CPROVER_decreases(triggers->n - p)'''},
          contract=r'''
 __CPROVER_requires(__CPROVER_r_ok(self, sizeof(*self)) && self->nrec <= 1000 && triggers->n <= 1000 && __CPROVER_r_ok(triggers->id, triggers->n * sizeof(size_t)) && g_cm_store_calls == 0 && verif_thrown == 0 && g_now >= 0 && g_now <= (1ll << 61) &&
                    g_ci_rec_adds == 0 && g_ci_rec_adds_at_ri == 0 && g_ci_trig_inserts == 0 && g_at_calls == 0 && self->has_cache)
-__CPROVER_assigns(verif_thrown, g_time_calls, g_cm_store_calls, g_cm_store_key, g_cm_store_data, g_cm_store_trigs, g_cm_store_deadline, g_ci_rec_adds, g_ci_rec_adds_at_ri, g_ci_rec_last_t, g_ci_trig_inserts, g_ci_trig_last, g_at_calls, g_at_last, g_at_at_k)
+__CPROVER_assigns(verif_thrown, g_time_calls, g_cm_store_calls, g_cm_store_at, g_cm_store_key, g_cm_store_data, g_cm_store_trigs, g_cm_store_deadline, g_ci_rec_adds, g_ci_rec_adds_at_ri, g_ci_rec_last_t, g_ci_trig_inserts, g_ci_trig_last, g_at_calls, g_at_last, g_at_at_k)
 /* storing a frame makes the enclosing page depend on the frame's triggers and on the frame's own key; the back end receives exactly key, data, the trigger set and now+timeout */
 __CPROVER_ensures(!notriggers ? (g_at_calls == (int)triggers->n + 1 && g_at_last == key && (g_at_k < triggers->n ==> g_at_at_k == triggers->id[g_at_k])) : g_at_calls == 0)
 __CPROVER_ensures(!verif_thrown ==> (g_cm_store_calls == 1 && g_cm_store_key == key && g_cm_store_data == data && g_cm_store_trigs == triggers && g_cm_store_deadline == (timeout < 0 ? INFTY_T : g_now + timeout)))
+'''),
+    dict(cname='ci_store_page', file=CI, locate=lit('void cache_interface::store_page(string const &key,int timeout)'), sig='void ci_store_page(struct cif *self, size_t key, int timeout)', self_arg='self', throw_ret='',
+         throwing_callees=['ci_deadtime'], rename={'add_trigger': 'ci_add_trigger', 'deadtime': 'ci_deadtime'}, members=['page_compression_used_'],
+         rewrites=[(r'nocache\(\)', '(!self->has_cache)', 1), (r'!context_\b', '!self->has_context', 1), (r'context_->response\(\)\.finalize\(\);', 'resp_finalize();', 0),
+                   (r'std::string r_key = \(([\w>-]+) \? "_(\w):" : "_(\w):"\) \+ key;', r'size_t r_key = rkey_rec(\1, LBL_\2, LBL_\3, key);', 1), (r'\btriggers_\b', '(&g_page_trigs)', 0), (r'(?:std::)?set<(?:std::)?string>\(\)', '(&g_empty_set)', 0),
+                   (r'cache_module_->store\((\w+),context_->response\(\)\.copied_data\(\),([^,]+),deadtime\((\w+)\)\);', r'size_t cd = resp_copied_data(); time_t dl = deadtime(\3); cm_store(\1, cd, \2, dl);', 0)],
+         contract=r'''
+__CPROVER_requires(__CPROVER_r_ok(self, sizeof(*self)) && self->nrec <= 1000 && g_cm_store_calls == 0 && verif_thrown == 0 && g_now >= 0 && g_now <= (1ll << 61) && g_rk_calls == 0 && g_fin_calls == 0 && g_cd_calls == 0 &&
+                   g_ci_rec_adds == 0 && g_ci_rec_adds_at_ri == 0 && g_ci_trig_inserts == 0 && g_at_calls == 0)
+__CPROVER_assigns(verif_thrown, g_time_calls, g_cm_store_calls, g_cm_store_at, g_cm_store_key, g_cm_store_data, g_cm_store_trigs, g_cm_store_deadline, g_ci_rec_adds, g_ci_rec_adds_at_ri, g_ci_rec_last_t, g_ci_trig_inserts, g_ci_trig_last,
+                  g_at_calls, g_at_last, g_at_at_k, g_rk_calls, g_rk_label, g_rk_key, g_fin_calls, g_cd_calls, g_cd_fin)
+/* C07: a page is stored under the variant (compressed / plain) that fetch_page chose for this request, with the COMPLETE output (copied after finalize), and with the WHOLE set of triggers recorded while it
+   was built -- its own key attached BEFORE the set is handed to the back end -- and deadline now + timeout */
+__CPROVER_ensures((self->has_cache && self->has_context && !verif_thrown) ==> (g_cm_store_calls == 1 && g_rk_calls == 1 && g_cm_store_key == g_rk_id && g_rk_key == key && g_rk_label == (self->page_compression_used_ ? LBL_Z : LBL_U) &&
+                  g_cd_calls == 1 && g_cm_store_data == g_cd_id && g_cd_fin == 1 && g_fin_calls == 1 && g_cm_store_trigs == &g_page_trigs && g_at_calls == 1 && g_at_last == key && g_cm_store_at == 1 &&
+                  g_cm_store_deadline == (timeout < 0 ? INFTY_T : g_now + timeout)))
+__CPROVER_ensures(!(self->has_cache && self->has_context) ==> (g_cm_store_calls == 0 && g_at_calls == 0 && g_fin_calls == 0))
+'''),
+    dict(cname='ci_fetch_page', file=CI, locate=lit('bool cache_interface::fetch_page(string const &key)'), sig='bool ci_fetch_page(struct cif *self, size_t key)', self_arg='self', members=['page_compression_used_'],
+         rewrites=[(r'nocache\(\)', '(!self->has_cache)', 1), (r'!context_\b', '!self->has_context', 1), (r'context_->response\(\)\.need_gzip\(\)', 'resp_need_gzip()', 1),
+                   (r'std::string r_key = \(([\w>-]+) \? "_(\w):" : "_(\w):"\) \+ key;', r'size_t r_key = rkey_rec(\1, LBL_\2, LBL_\3, key);', 1), (r'std::string tmp;', 'size_t tmp = 0;', 1),
+                   (r'cache_module_->fetch\((\w+),tmp,', r'cm_fetch_data(\1, &tmp,', 1), (r'context_->response\(\)\.content_encoding\("(\w+)"\)', r'resp_content_encoding(ENC_\1)', 0),
+                   (r'context_->response\(\)\.out\(\)\.write\((\w+)\.c_str\(\),(\w+)\.size\(\)\)', r'resp_write(\1, \2)', 0), (r'context_->response\(\)\.copy_to_cache\(\)', 'resp_copy_to_cache()', 0)],
+         contract=r'''
+__CPROVER_requires(__CPROVER_rw_ok(self, sizeof(*self)) && g_cm_fetch_calls == 0 && g_rk_calls == 0 && g_w_calls == 0 && g_enc_calls == 0 && g_copy_calls == 0)
+__CPROVER_assigns(self->page_compression_used_, g_cm_fetch_calls, g_cm_fetch_key, g_cm_fetch_wants_trigs, g_rk_calls, g_rk_label, g_rk_key, g_w_calls, g_w_data, g_w_len, g_enc_calls, g_enc_last, g_copy_calls)
+/* C07: the page is looked up under the variant this client can take (gzip or not), the choice is remembered for store_page, a hit writes exactly the cached bytes (declared gzip only for the compressed variant),
+   and a miss arranges for the output to be copied so store_page can store it */
+__CPROVER_ensures((self->has_cache && self->has_context) ==> (self->page_compression_used_ == g_need_gzip && g_cm_fetch_calls == 1 && g_rk_calls == 1 && g_cm_fetch_key == g_rk_id && g_rk_key == key &&
+                  g_rk_label == (g_need_gzip ? LBL_Z : LBL_U) && __CPROVER_return_value == g_cm_hit))
+__CPROVER_ensures((self->has_cache && self->has_context && g_cm_hit) ==> (g_w_calls == 1 && g_w_data == g_cm_data && g_w_len == g_cm_data && g_copy_calls == 0 && (g_need_gzip ? (g_enc_calls == 1 && g_enc_last == ENC_gzip) : g_enc_calls == 0)))
+__CPROVER_ensures((self->has_cache && self->has_context && !g_cm_hit) ==> (g_w_calls == 0 && g_copy_calls == 1))
+__CPROVER_ensures(!(self->has_cache && self->has_context) ==> (!__CPROVER_return_value && g_cm_fetch_calls == 0 && g_w_calls == 0))
 '''),
 ]
 
@@ -364,11 +412,18 @@ CISET = r'''
     struct cif ci; size_t nr, ri, ak; int hc; ci.nrec = nr; ci.has_cache = hc != 0; g_ri = ri; g_at_k = ak; g_ci_rec_adds = 0; g_ci_rec_adds_at_ri = 0; g_ci_trig_inserts = 0; g_at_calls = 0; g_cm_fetch_calls = 0; g_cm_store_calls = 0; verif_thrown = 0; g_time_calls = 0;
     time_t nw; g_now = nw; struct idset ts; size_t tn; __CPROVER_assume(tn <= 1000); ts.n = tn; ts.id = malloc(tn * sizeof(size_t)); __CPROVER_assume(ts.id != NULL); ts.has_key = 0;
 '''
+PGSET = r'''
+    int hx, pc, ng; ci.has_context = hx != 0; ci.page_compression_used_ = pc != 0; g_need_gzip = ng != 0; size_t rk, cdi, cmd; g_rk_id = rk; g_cd_id = cdi; g_cm_data = cmd;
+    g_rk_calls = 0; g_fin_calls = 0; g_cd_calls = 0; g_w_calls = 0; g_enc_calls = 0; g_copy_calls = 0;
+'''
+REPLAYP = dict(replay='c07p:pages', replay_link=['-fno-access-control', '-L{BUILD}', '-lcppcms', '-L{BUILD}/booster', '-lbooster', '-lpthread'], replay_exhaustive='the real cache_interface driven as an application drives it: 6000-step pseudo-random histories of page builds (gzip and plain variants, 0..2 frames each, frames nested to depth 2, triggers added directly / through store_frame / through triggers_recorder / inherited from cached frames, notriggers on and off), rise and clear, against a reference that tracks the dependency set of every cached page and frame; hit/miss, bytes served, Content-Encoding, every detach() set and the key count compared at every step')
 jobs += [
     dict(name='ci_deadtime', props=P7, enforce='ci_deadtime', harness='time_t nw; g_now = nw; verif_thrown = 0; g_time_calls = 0; int sec; ci_deadtime(sec); VERIF_REACH;'),
-    dict(name='ci_add_trigger', props=P7, enforce='ci_add_trigger', harness=CISET + 'size_t t; ci_add_trigger(&ci, t); VERIF_REACH;'),
-    dict(name='ci_fetch', props=P7, enforce='ci_fetch', replace=['ci_add_trigger'], harness=CISET + 'g_cm_trigs = ts; int h, nt; g_cm_hit = h != 0; size_t key; ci_fetch(&ci, key, nt != 0); VERIF_REACH;'),
-    dict(name='ci_store', props=P7, enforce='ci_store', replace=['ci_add_trigger', 'ci_deadtime'], harness=CISET + 'int nt, to; size_t key, data; ci_store(&ci, key, data, &ts, to, nt != 0); VERIF_REACH;'),
+    dict(name='ci_add_trigger', props=P7, **REPLAYP, enforce='ci_add_trigger', harness=CISET + 'size_t t; ci_add_trigger(&ci, t); VERIF_REACH;'),
+    dict(name='ci_fetch', props=P7, **REPLAYP, enforce='ci_fetch', replace=['ci_add_trigger'], harness=CISET + 'g_cm_trigs = ts; int h, nt; g_cm_hit = h != 0; size_t key; ci_fetch(&ci, key, nt != 0); VERIF_REACH;'),
+    dict(name='ci_store', props=P7, **REPLAYP, enforce='ci_store', replace=['ci_add_trigger', 'ci_deadtime'], harness=CISET + 'int nt, to; size_t key, data; ci_store(&ci, key, data, &ts, to, nt != 0); VERIF_REACH;'),
+    dict(name='ci_store_page', props=P7, **REPLAYP, enforce='ci_store_page', replace=['ci_add_trigger', 'ci_deadtime'], harness=CISET + PGSET + 'int to; size_t key; ci_store_page(&ci, key, to); VERIF_REACH;'),
+    dict(name='ci_fetch_page', props=P7, **REPLAYP, enforce='ci_fetch_page', harness=CISET + PGSET + 'g_cm_trigs = ts; int h; g_cm_hit = h != 0; size_t key; ci_fetch_page(&ci, key); VERIF_REACH;'),
 ]
 
 UNIT = dict(
@@ -377,6 +432,6 @@ UNIT = dict(
     trusted=['memcache: hash_map / std::list / std::multimap are abstract: iterators are handles, each operation is a recorder that maintains ghost cardinalities; their own correctness (private/hash_map.h, libstdc++) is assumed',
              'memcache: locks are dropped (sequential contracts; C09 is not applicable); std::bad_alloc paths (try/catch -> nl_clear) are cut: allocation is assumed to succeed',
              'memcache: set_find_key / triggers_find return oracle values chosen by the harness'],
-    not_covered={'C07': ['the history-level statement (a fetch returns the value of the most recent store unless invalidated) is a composition of the per-call contracts with the container semantics; cache_interface trigger recorders; process-shared allocator'],
+    not_covered={'C07': ['the history-level statement (a fetch returns the value of the most recent store unless invalidated) is a composition of the per-call contracts with the container semantics; triggers_recorder::add/detach (std::set insert); process-shared allocator'],
                  'C08': ['LRU order itself is std::list semantics (front = most recent is maintained by store/fetch, back is evicted: both under contract); buddy/shmem allocator; statistics across histories']},
 )
